@@ -221,7 +221,7 @@ def gen_schema(rng):
     if has_root:
         doc.update(obj(1)); doc["title"] = "Root"
         if rng.random() < .3: doc.pop("definitions")       # the root alone (its members then refer to "#" or dangle)
-    if rng.random() < .35: add_member_defaults(rng, doc)
+    if rng.random() < .5: add_member_defaults(rng, doc)
     return {"schema": doc}
 
 def add_member_defaults(rng, doc):
@@ -232,7 +232,7 @@ def add_member_defaults(rng, doc):
     for h in holders:
         if not isinstance(h, dict) or h.get("type") != "object": continue
         for pn, ps in (h.get("properties") or {}).items():
-            if pn in h.get("required", []) or not isinstance(ps, dict) or "default" in ps or "x-rust-type" in ps or rng.random() > .4: continue
+            if pn in h.get("required", []) or not isinstance(ps, dict) or "default" in ps or "x-rust-type" in ps or rng.random() > .55: continue
             try: d = gen.gen_valid(rng, doc, ps, depth=2, mode=rng.choice(["min", "random", "all_present"]))
             except Exception: continue
             if len(json.dumps(d)) < 400: ps["default"] = d
